@@ -104,6 +104,19 @@ mechanisms:
         subject:
           id: sub
         cache_ttl: 1m
+    - id: generic_sl
+      type: generic
+      config:
+        identity_info_endpoint:
+          url: http://userinfo/inactive
+          method: GET
+        authentication_data_source:
+          - cookie: sess
+        subject:
+          id: sub
+        session_lifespan:
+          active: active
+        cache_ttl: 1m
     - id: introspect
       type: oauth2_introspection
       config:
@@ -174,6 +187,17 @@ mechanisms:
         values:
           a: "one"
           b: "two"
+    - id: remote_x
+      type: remote
+      config:
+        endpoint:
+          url: http://pdp/check/x
+          method: POST
+        payload: "{{ .Subject.ID }}"
+        expressions:
+          - expression: "Payload.allow == true"
+            message: "the decision point did not allow it"
+        cache_ttl: 1m
   contextualizers:
     - id: ctx
       type: generic
@@ -239,6 +263,7 @@ var specs = []mechSpec{
 	{"authenticator", "anon", []map[string]any{{"subject": "other"}, {"subject": "third"}}},
 	{"authenticator", "basic", []map[string]any{{"user_id": "u2", "password": "p2"}, {"allow_fallback_on_error": true}}},
 	{"authenticator", "generic", []map[string]any{{"cache_ttl": "5s"}, {"allow_fallback_on_error": true}, {"cache_ttl": "0s"}}},
+	{"authenticator", "generic_sl", []map[string]any{{"cache_ttl": "5s"}, {"allow_fallback_on_error": true}}},
 	{"authenticator", "introspect", []map[string]any{
 		{"assertions": map[string]any{"issuers": []any{"iss2"}}}, {"assertions": map[string]any{"audience": []any{"svc-x"}}},
 		{"assertions": map[string]any{"scopes": []any{"admin"}}}, {"cache_ttl": "7s"}, {"allow_fallback_on_error": true},
@@ -272,6 +297,7 @@ var specs = []mechSpec{
 		{"expressions": []any{map[string]any{"expression": `Payload.allow == false && string(Payload.allow).regexFind("^fa") == "fa"`}}},
 		{"expressions": []any{map[string]any{"expression": `Payload.allow == false && ["10.1.2.3"].all(ip, ip in networks(["10.0.0.0/8", "192.168.0.0/16"]))`}}},
 		{"forward_response_headers_to_upstream": []any{"X-Other"}}, {"cache_ttl": "9s"}, {"values": map[string]any{"a": "uno"}}, {"values": map[string]any{"c": "three"}}}},
+	{"authorizer", "remote_x", []map[string]any{{"cache_ttl": "9s"}, {"payload": "other-{{ .Subject.ID }}"}}},
 	{"contextualizer", "ctx", []map[string]any{
 		{"forward_headers": []any{"X-Fwd2"}}, {"forward_headers": []any{"X-Fwd", "X-Fwd2"}}, {"forward_headers": []any{"X-Fwd X-Fwd2"}}, {"payload": "p-{{ .Subject.ID }}"}, {"cache_ttl": "9s"}, {"continue_pipeline_on_error": true},
 		{"values": map[string]any{"a": "uno"}}, {"forward_cookies": []any{"sess"}}}},
@@ -383,7 +409,13 @@ func install(n *simnet.Net) {
 	n.HandleFunc("introspect", func(w http.ResponseWriter, r *http.Request) {
 		js(w, map[string]any{"active": true, "sub": "alice-tok", "iss": "iss1", "scope": "read", "aud": []string{"svc-a"}, "exp": time.Now().Unix() + 3600})
 	})
-	n.HandleFunc("userinfo", func(w http.ResponseWriter, r *http.Request) { js(w, map[string]any{"sub": "alice-sess"}) })
+	n.HandleFunc("userinfo", func(w http.ResponseWriter, r *http.Request) {
+		if r.URL.Path == "/inactive" {
+			js(w, map[string]any{"sub": "alice-sess", "active": false})
+			return
+		}
+		js(w, map[string]any{"sub": "alice-sess"})
+	})
 	n.HandleFunc("pdp", func(w http.ResponseWriter, r *http.Request) {
 		w.Header().Set("X-Pdp", "p")
 		w.Header().Set("X-Other", "o")
